@@ -120,11 +120,15 @@ func runChild(c *run.Ctx, job string) {
 	var err error
 	switch {
 	case strings.HasPrefix(job, "gen:"):
-		idx, _ := strconv.Atoi(job[4:])
-		cs, err = genPMCase(c.Seed, idx, c.Scratch)
+		f := strings.Split(job, ":")
+		idx, _ := strconv.Atoi(f[1])
+		try, _ := strconv.Atoi(f[2])
+		cs, err = genPMCase(c.Seed, idx, try, c.Scratch)
 	case strings.HasPrefix(job, "fixed:"):
-		k, _ := strconv.Atoi(job[6:])
-		cs, err = fixedPMCase(k, c.Scratch)
+		f := strings.Split(job, ":")
+		k, _ := strconv.Atoi(f[1])
+		try, _ := strconv.Atoi(f[2])
+		cs, err = fixedPMCase(k, try, c.Scratch)
 	case strings.HasPrefix(job, "replay:"):
 		var b []byte
 		b, err = ioutil.ReadFile(job[7:])
@@ -148,6 +152,24 @@ func runChild(c *run.Ctx, job string) {
 // spawnPM re-executes this binary for one PM history with the race detector's log redirected,
 // forwards its result lines and hands the race reports that belong to this property to the driver.
 func spawnPM(c *run.Ctx, job, name string) {
+	// The race build also switches on checkptr, and the repository's sha3 (xorInUnaligned:
+	// converts &buf[0] of a 136..167 byte input to *[21]uint64 but reads only len(buf) bytes)
+	// trips it whenever such a buffer ends its allocation: a fatal error that depends on the
+	// heap layout, not on the history. Such a child is started again.
+	for try := 0; ; try++ {
+		j := job
+		if !strings.HasPrefix(job, "replay:") {
+			j = fmt.Sprintf("%s:%d", job, try)
+		}
+		if spawnPMOnce(c, j, fmt.Sprintf("%s-t%d", name, try), try < 5) {
+			return
+		}
+		c.Stat("pm_children_restarted_after_checkptr_abort_in_sha3", 1)
+	}
+}
+
+// spawnPMOnce returns false when the child has to be started again.
+func spawnPMOnce(c *run.Ctx, job, name string, mayRetry bool) bool {
 	sub := filepath.Join(c.Scratch, name)
 	_ = os.MkdirAll(sub, 0755)
 	logPrefix := filepath.Join(sub, "race")
@@ -170,12 +192,20 @@ func spawnPM(c *run.Ctx, job, name string) {
 	done := false
 	sc := bufio.NewScanner(&out)
 	sc.Buffer(make([]byte, 1<<20), 1<<28)
+	var lines []string
 	for sc.Scan() {
 		line := sc.Text()
 		if strings.Contains(line, `"t":"done"`) {
 			done = true
 			continue
 		}
+		lines = append(lines, line)
+	}
+	if !done && mayRetry && strings.Contains(errBuf.String(), "fatal error: checkptr") && strings.Contains(errBuf.String(), "sha3.xorInUnaligned") {
+		_ = os.RemoveAll(sub)
+		return false
+	}
+	for _, line := range lines {
 		os.Stdout.WriteString(line + "\n")
 	}
 	if !done {
@@ -210,6 +240,7 @@ func spawnPM(c *run.Ctx, job, name string) {
 		}
 	}
 	_ = os.RemoveAll(sub)
+	return true
 }
 
 var frameRe = regexp.MustCompile(`(?m)^  (github\.com/LemoFoundationLtd/lemochain-core/\S+)\(\)`)
